@@ -72,10 +72,17 @@ class Rec:
             except (ValueError, TypeError):
                 pass
 
+        fbuf = np.empty(1)
+
         def f(x):
             self.calls.append(("F", pkey(x)))
             v = Fc(x) if mode == "cs" else F(x)
             scribble(x)
+            if mode not in ("cs", "callable"):
+                # an objective that returns a one-element array it owns and overwrites at its next call (the value must be taken
+                # out of it, not kept as a view)
+                fbuf[0] = v
+                return fbuf
             return v
 
         buf = np.empty(2)
